@@ -28,8 +28,27 @@ M = "clashfinder"
 
 
 def atom_types(chk) -> Dict[str, float]:
-    """AtomType member -> radius, read from the radius property by abstract evaluation per member value."""
+    """AtomType member -> radius: the radius property evaluated per member (checks/c17e.EnumS: the body is interpreted
+    with self = the member, whatever its shape - if/elif chain, dispatch table, match); the path-folding reading below
+    is the fallback."""
     repo = chk.repo
+    try:
+        from checks import c17e
+
+        fi0 = repo.func(M, "AtomType.radius")
+        chk.note_function(fi0)
+        enum = c17e.EnumS(repo, M, "AtomType")
+        out0: Dict[str, float] = {}
+        for m in enum.members:
+            try:
+                out0[m.name] = m.radius
+            except c17e.Raised:
+                out0[m.name] = None
+        return out0
+    except AnalysisError:
+        raise
+    except Exception:
+        pass
     members = {k: Folder(repo, M).fold(v) for k, v in repo.enum_members(M, "AtomType").items()}
     fi = repo.func(M, "AtomType.radius")
     chk.note_function(fi)
